@@ -803,7 +803,7 @@ def c17_directed(ctx):
     pass
 
 
-ALLFAMS = [("frames", 0.4, True), ("sched", 0.3, True), ("faults", 0.3, False)]
+ALLFAMS = [("frames", 0.4, True), ("sched", 0.3, True), ("faults", 0.3, True)]
 
 
 @check
@@ -819,9 +819,10 @@ def check_C15(ctx):
     ctx.cov["rule"] = ("scenarios of the frames family with one injected fault: k-th Fill of a bar, k-th extender call, k-th Write of "
                        "the output (k = 1..4), half of them under scheduling perturbation; non-trivial = the fault fired")
     ctx.assumptions = ["terminal-size query faults need a pty and are exercised by the pty sweep (thorough tier)"]
-    frames_check(ctx, set(), M.c15_monitor, 200, 6000, CONT_DEPS | {"Props/C15.v"},
+    frames_check(ctx, {"CT_FLUSHBAR", "CT_RENDERERR", "BAR_DRAWERR", "CT_RENDERBEGIN", "CT_FRAME", "OUT_UNEXPECTED", "HM_PUSH", "CT_EXIT", "BAR_EXIT"},
+                 M.c15_monitor, 200, 6000, CONT_DEPS | {"Props/C15.v"},
                  nontrivial=lambda case, frames: any(" FAULT " in l or " OUTERR " in l for l in case["trace"]),
-                 fams=[("faults", 1.0, False)])
+                 fams=[("faults", 1.0, True)])
 
 
 @check
